@@ -106,10 +106,15 @@ def run(ctx):
     vols2 = sorted(p for p in c2["changed"] if p != ps.index)
     vols1 = sorted(p for p in c1["changed"] if p != s1.index)
 
-    def states(full, index, datapaths, vols):
+    def states(full, index, datapaths, vols, cap=None):
         st = {"intact": dict(full)}
         x = dict(full); del x[datapaths[0]]; st["repairable"] = x
         x = dict(full); x[datapaths[0]] = b"damaged"; x.pop(datapaths[1]); x.pop(datapaths[2]); st["unrepairable"] = x
+        if cap is not None:
+            x = dict(full)
+            for p_ in cap:
+                x.pop(p_)
+            st["repairable at exact capacity"] = x
         x = dict(full); x.pop(datapaths[0])
         for v in vols:
             x.pop(v)
@@ -123,8 +128,8 @@ def run(ctx):
         x = dict(full); x[datapaths[0]], x[datapaths[1]] = x[datapaths[1]], x[datapaths[0]]; st["swapped"] = x
         return st
 
-    st2 = states(full2, ps.index, list(ps.paths.values()), vols2)
-    st1 = states(full1, s1.index, list(s1.paths.values()), vols1)
+    st2 = states(full2, ps.index, list(ps.paths.values()), vols2, cap=[ps.paths["b.dat"]])      # 2 slices lost, 2 blocks
+    st1 = states(full1, s1.index, list(s1.paths.values()), vols1, cap=list(s1.paths.values())[:2])   # 2 files lost, 2 volumes
     st1.pop("swapped")
     cases = []      # (desc, cwd, view, args, fs)
     for fmtname, index, sts in (("par2", ps.index, st2), ("par1", s1.index, st1)):
